@@ -12,6 +12,7 @@ import numpy as np
 from hypothesis import strategies as st
 
 from refs import sdof_exact as sx
+from vlib import util
 from vlib.core import Part
 
 PROPERTY = "C03"
@@ -168,6 +169,8 @@ def oracle_hist(case, R):
     R.nontrivial(N >= 3 and distinct and np.any(freqs > 0))
 
     arr = sig[:, 0].copy() if oneD else sig.copy()
+    arr, lab_ = util.repack(arr, case.get("spack", "same"))
+    R.label("sig:" + lab_)
     kw = dict(ic=ic, stype=stype, peak=peak, rolloff=rolloff, eqsine=eqsine, time=time)
     sh, resp = call_srs(srs, arr, sr, freqs, Q, getresp=True, **kw)
     sh_only = call_srs(srs, arr, sr, freqs, Q, getresp=False, **kw)
@@ -295,7 +298,8 @@ def hist_cases(draw):
     return {"sig": spec, "sr": draw(st.sampled_from([50.0, 200.0, 1000.0, 1024.0, 4410.0, 1e5, 333.3])),
             "ratios": ratios, "f0": f0, "Q": draw(q_strategy()), "stype": stype, "ic": ic, "peak": peak,
             "time": time, "eqsine": draw(st.booleans()), "oneD": draw(st.booleans()),
-            "rolloff": draw(st.sampled_from(["none", "none", None])), "mp": draw(st.integers(0, 3)) == 0}
+            "rolloff": draw(st.sampled_from(["none", "none", None])), "mp": draw(st.integers(0, 3)) == 0,
+            "spack": draw(st.sampled_from(["same", "same", "int", "list", "fortran", "strided", "readonly"]))}
 
 
 # fixed signal family for the exhaustive option grid
